@@ -184,6 +184,9 @@ T4A = {"kind": "t4t", "tech": "A", "ver": 0x20, "mle": 40, "mlc": 30,
        "wtx": 0, "max_send": 290, "max_recv": 290, "filler": 0}
 T4B = dict(T4A, tech="B", fsci=5, chunk=None, ver=0x30, fwi=8)
 T4SLOW = dict(T4A, fwi=12)
+# a card that asks for a waiting time extension before every answer (the
+# S(WTX) answer of the reader is one more exchange that can fail)
+T4WTX = dict(T4A, wtx=1, wtxm=0x41)
 
 OPS = {
     "t1t": ["ndef", "write", "present", "dump", "protect",
@@ -209,10 +212,11 @@ OPS = {
 FIXTURES = {
     "t1t": T1S, "t1t-dyn": T1D, "topaz": T1TOPAZ, "topaz512": T1TOPAZ512,
     "t2t": T2, "t2t-big": T2BIG, "t3t": T3, "t4t": T4A, "t4t-b": T4B,
-    "t4t-slow": T4SLOW,
+    "t4t-slow": T4SLOW, "t4t-wtx": T4WTX,
 }
 OPS["t4t-b"] = ["ndef", "write", "present"]
 OPS["t4t-slow"] = ["ndef", "present"]
+OPS["t4t-wtx"] = ["ndef", "write", "format-wipe"]
 
 PW = b"0123456789abcdef"
 PW2 = b"fedcba9876543210"
@@ -538,6 +542,30 @@ def is_sector_select_2(xlog, k):
     return k > 0 and xlog[k - 1][1] == b"\xC2\xFF"
 
 
+
+def desc_wtx(fixture, desc):
+    d = desc if desc is not None else FIXTURES.get(fixture, {})
+    return bool(d.get("wtx"))
+
+
+def _hits_wtx(xlog):
+    """a fault of this run hit the waiting time extension exchange of a Type 4
+    card: the reader's S(WTX) answer was lost, its answer was lost, or the
+    card's S(WTX) request itself (the known ISO-DEP finding: that exchange is
+    outside the retry loops)"""
+    prev = None
+    for e in xlog:
+        cmd, rsp = e[1], e[2]
+        if isinstance(rsp, str) and rsp.startswith("ERR:"):
+            if (cmd and bytes(cmd)[:1] == b"\xF2") or \
+                    (prev is not None and prev[:1] == b"\xF2"):
+                return True
+            # the answer that was lost may have been the S(WTX) request
+            if cmd and bytes(cmd)[0] & 0xE2 == 0x02 and e[3] == "rsp":
+                return "maybe"
+        prev = bytes(rsp) if isinstance(rsp, (bytes, bytearray)) else None
+    return False
+
 def _known_locally(exc, tagname, ctx):
     """a class of its own for the (repaired, fde77b7) Ultralight EV1 defect:
     protect() of NTAG21x needs self._cfgpage, which no MifareUltralightEV1
@@ -630,6 +658,9 @@ def check(case, ctx):
         cls = "t4t/protocol-error-burst"
     ctx.set_class(cls)
     run = execute(fixture, op, (k, kind, burst, phase), desc)
+    if ref["f"].kind == "t4t" and desc_wtx(fixture, desc) and \
+            _hits_wtx(run["xlog"]):
+        ctx.set_class("t4t/wtx-exchange")
     budget = run["budget"]
     target_cmd = ref["xlog"][k][1]
     ss2 = ref["f"].kind == "t2t" and is_sector_select_2(ref["xlog"], k)
@@ -642,6 +673,9 @@ def check(case, ctx):
         ctx.nontrivial()
     # (a)
     if "other" in run:
+        # (an exception that is no TagCommandError is never part of the
+        # known waiting-time-extension finding: back to the plain class)
+        ctx.set_class(cls)
         if _known_locally(run["other"], run["tag"], ctx):
             return None
         raise unexpected(run["other"], "raw-or-unrelated-exception",
@@ -799,6 +833,8 @@ def check_mixed(case, ctx):
         cls = "t4t/protocol-error-burst"
     ctx.set_class(cls)
     run = execute(fixture, op, ("seq", k, seq, tail), desc)
+    if is_t4 and desc_wtx(fixture, desc) and _hits_wtx(run["xlog"]):
+        ctx.set_class("t4t/wtx-exchange")
     budget = run["budget"]
     target_cmd = ref["xlog"][k][1]
     ss2 = ref["f"].kind == "t2t" and is_sector_select_2(ref["xlog"], k)
@@ -809,6 +845,7 @@ def check_mixed(case, ctx):
         (target_cmd or b"").hex()[:40])
     # (a)
     if "other" in run:
+        ctx.set_class(cls)      # (as in check(): never the known WTX class)
         if _known_locally(run["other"], run["tag"], ctx):
             return
         raise unexpected(run["other"], "raw-or-unrelated-exception",
